@@ -287,6 +287,65 @@ def _repair(handler):
         Osc._null_file = open(os.devnull, mode="w")  # noqa: SLF001, SIM115
 
 
+# ------------------------------------------------------------------ leg 3: the exporter's watchdog
+WATCHDOG_STMTS = {
+    "sleep": "import time; time.sleep(0.4)",
+    "sleep+print": "import time; time.sleep(0.4); print('late')",
+    "disable+sleep": "import logging, time; logging.disable(logging.CRITICAL); time.sleep(0.4)",
+    "quick": "x = 1",
+    "quick-disable": "import logging; logging.disable(logging.CRITICAL)",
+}
+
+
+def shard_watchdog(col, name):
+    """The exporter re-executes statements in a watchdog thread (``export._exec_statement_guarded``).  For
+    every statement of a small menu x {watchdog expires (thread abandoned), watchdog does not expire}: the
+    process state (logging disable level, root handlers, sys.stdout/err) after the call returned AND after
+    the abandoned thread has finished must be what it was before.  The oracle does not depend on timing:
+    whether the thread was abandoned only decides which path was exercised (counted)."""
+    import logging
+    import sys
+    import threading
+    import time
+
+    import pynguin.testcase.export as export
+
+    logging.disable(logging.NOTSET)
+    for tmo, label in ((0.05, "expires"), (30.0, "in-time")):
+        before = (logging.root.manager.disable, list(logging.root.handlers), sys.stdout, sys.stderr)
+        old = export._STATEMENT_EXECUTION_TIMEOUT  # noqa: SLF001
+        export._STATEMENT_EXECUTION_TIMEOUT = tmo  # noqa: SLF001
+        threads_before = set(threading.enumerate())
+        try:
+            finished, _exc = export._exec_statement_guarded(WATCHDOG_STMTS[name], {}, None)  # noqa: SLF001
+        finally:
+            export._STATEMENT_EXECUTION_TIMEOUT = old  # noqa: SLF001
+        col.count("transitions")
+        col.count("traces_validated_against_impl")
+        col.count("watchdog_abandoned" if not finished else "watchdog_in_time")
+        col.distinct("states", ("watchdog", name, label, finished))
+        data = {"leg": 3, "statement": name, "watchdog": label}
+
+        def check(when, before=before, data=data, name=name, label=label):
+            now = (logging.root.manager.disable, list(logging.root.handlers), sys.stdout, sys.stderr)
+            diffs = [k for k, a, b in zip(("logging-disable", "root-handlers", "stdout", "stderr"), before, now)
+                     if a != b]
+            if diffs:
+                col.violation(f"C30|export-watchdog|{name}|{label}|{when}|" + "+".join(diffs),
+                              f"_exec_statement_guarded({WATCHDOG_STMTS[name]!r}), watchdog {label}: "
+                              f"{when}: changed {diffs} (disable level {before[0]} -> {now[0]})", data)
+            logging.disable(before[0])
+            logging.root.handlers[:] = before[1]
+            sys.stdout, sys.stderr = before[2], before[3]
+
+        check("after-return")
+        for t in set(threading.enumerate()) - threads_before:
+            t.join(10.0)
+        time.sleep(0.01)
+        check("after-abandoned-thread-finished")
+
+
+
 def run(ctx):
     from props import c32_timeout
 
@@ -301,6 +360,10 @@ def run(ctx):
     par.run_shards("props.c32_timeout:shard",
                    [(i, bound, h, max_execs, "C30") for i in seqs for h in (horizon, horizon + 1)],
                    ctx.workers, ctx)
+    # leg 3: the exporter's statement watchdog
+    par.run_shards("props.c30_isolation:shard_watchdog", [(n,) for n in WATCHDOG_STMTS], ctx.workers, ctx)
+    ctx.require(ctx.col.counters.get("watchdog_abandoned", 0) >= 2 and ctx.col.counters.get("watchdog_in_time", 0) >= 2,
+                "vacuous: the watchdog leg did not exercise both the expiring and the in-time path")
     ctx.require(len(ctx.col.sets.get("outcomes", ())) > 8, "vacuous: too few distinct results")
     ctx.require(ctx.col.counters.get("schedules_zombie_overlaps_next_test", 0) > 0,
                 "vacuous: zombie leg never overlapped a later test")
@@ -319,6 +382,9 @@ def replay(ctx, data):
     col = Collector()
     if data.get("leg") == 1:
         shard(col, [data["sequence"][0]], len(data["sequence"]))
+        ctx.merge(col)
+    elif data.get("leg") == 3:
+        shard_watchdog(col, data["statement"])
         ctx.merge(col)
     else:
         from props import c32_timeout
